@@ -901,6 +901,7 @@ int femmcli::LuaElectrostaticsCommands::luaModifyConductorProperty(lua_State *L)
         if (!lua_isnil(L,3))
             newName = lua_tostring(L,3);
         prop->CircName = newName;
+        doc->updateCircuitMap();
         break;
     }
     case 1:
@@ -1023,6 +1024,7 @@ int femmcli::LuaElectrostaticsCommands::luaModifyPointProperty(lua_State *L)
     {
     case 0:
         p->PointName = lua_tostring(L,3);
+        doc->updateNodeMap();
         break;
     case 1:
         p->V = lua_todouble(L,3);
